@@ -143,7 +143,8 @@ impl FilePersist {
         };
 
         // Load existing shards, clean up orphans, and replay WAL
-        persist.load_shards()?;
+        let pending_drops = persist.load_shards()?;
+        persist.finish_pending_drops(pending_drops)?;
         persist.cleanup_orphaned_batches();
         let replayed = persist.replay_wal()?;
 
@@ -181,11 +182,15 @@ impl FilePersist {
         Ok(persist)
     }
 
-    /// Load shard metadata from disk
-    fn load_shards(&mut self) -> StorageResult<()> {
+    /// Load shard metadata from disk.
+    ///
+    /// Returns the drop markers found (`<shard>.json.dropped`, see `delete_shard`): shards whose
+    /// deletion was committed but not finished when the process died.
+    fn load_shards(&mut self) -> StorageResult<Vec<(PathBuf, ShardMeta)>> {
         let shards_dir = self.config.path.join("shards");
+        let mut pending_drops = Vec::new();
         if !shards_dir.exists() {
-            return Ok(());
+            return Ok(pending_drops);
         }
 
         let mut shards = self.shards.write();
@@ -193,6 +198,19 @@ impl FilePersist {
         for entry in fs::read_dir(&shards_dir)? {
             let entry = entry?;
             let path = entry.path();
+
+            if path.extension().and_then(|s| s.to_str()) == Some("dropped") {
+                // An unreadable marker can only be a leftover of a finished drop; ignore it.
+                if let Some(meta) = fs::read_to_string(&path)
+                    .ok()
+                    .and_then(|content| serde_json::from_str::<ShardMeta>(&content).ok())
+                {
+                    pending_drops.push((path.clone(), meta));
+                } else {
+                    let _ = fs::remove_file(&path);
+                }
+                continue;
+            }
 
             if path.extension().and_then(|s| s.to_str()) == Some("json") {
                 let content = fs::read_to_string(&path)?;
@@ -251,6 +269,25 @@ impl FilePersist {
             }
         }
 
+        Ok(pending_drops)
+    }
+
+    /// Finish shard deletions that were committed (marker written) before a crash: the shard's
+    /// WAL entries and batch files go, then the marker. Runs before the WAL is replayed, so the
+    /// dropped shard is not rebuilt from its leftover log entries.
+    fn finish_pending_drops(&self, pending: Vec<(PathBuf, ShardMeta)>) -> StorageResult<()> {
+        for (marker, meta) in pending {
+            {
+                let mut wal = self.wal.lock();
+                wal.remove_shard_entries(&meta.name)?;
+            }
+            for batch_ref in &meta.batches {
+                let _ = fs::remove_file(&batch_ref.path);
+            }
+            sync_directory(&self.config.path.join("batches"));
+            let _ = fs::remove_file(&marker);
+            sync_directory(&self.config.path.join("shards"));
+        }
         Ok(())
     }
 
@@ -682,9 +719,28 @@ impl PersistBackend for FilePersist {
             shards.remove(shard)
         }; // write lock released - other shards unblocked
 
-        // Step 2: Delete batch files FIRST (crash-safe ordering)
-        // If we crash here, metadata still references them but they're gone.
-        // On next startup, load_shards will see missing files and handle gracefully.
+        // Step 2: Commit the deletion with ONE atomic step: the metadata file is renamed to a
+        // drop marker (and the directory synced). Before this point a crash leaves the shard
+        // untouched; from this point on start-up finishes the deletion (finish_pending_drops).
+        // Removing batch files, WAL entries and metadata one after the other without such a
+        // commit point let a crash in between recover a relation that was neither the old one
+        // nor gone: e.g. its flushed tuples lost but its unflushed ones replayed from the WAL.
+        let shards_dir = self.config.path.join("shards");
+        let meta_path = shards_dir.join(format!("{}.json", sanitize_name(shard)));
+        let marker_path = shards_dir.join(format!("{}.json.dropped", sanitize_name(shard)));
+        let committed = meta_path.exists() && fs::rename(&meta_path, &marker_path).is_ok();
+        if committed {
+            sync_directory(&shards_dir);
+        }
+
+        // Step 3: Selective WAL filter - remove only this shard's entries
+        // Other shards' WAL data is PRESERVED (no need to flush them)
+        {
+            let mut wal = self.wal.lock();
+            wal.remove_shard_entries(shard)?;
+        }
+
+        // Step 4: Delete batch files
         if let Some(ref state) = removed_state {
             let mut deleted_any = false;
             for batch_ref in &state.meta.batches {
@@ -698,25 +754,16 @@ impl PersistBackend for FilePersist {
             }
         }
 
-        // Step 3: Selective WAL filter - remove only this shard's entries
-        // Other shards' WAL data is PRESERVED (no need to flush them)
-        {
-            let mut wal = self.wal.lock();
-            wal.remove_shard_entries(shard)?;
-        }
-
-        // Step 4: Delete metadata file LAST (crash-safe ordering)
+        // Step 5: Remove the marker (and metadata written under the old naming scheme) LAST.
         // After this, the shard is fully removed from disk.
-        let meta_path = self
-            .config
-            .path
-            .join("shards")
-            .join(format!("{}.json", sanitize_name(shard)));
         self.remove_legacy_shard_meta(shard);
         if meta_path.exists() {
             let _ = fs::remove_file(&meta_path);
         }
-        sync_directory(&self.config.path.join("shards"));
+        if committed {
+            let _ = fs::remove_file(&marker_path);
+        }
+        sync_directory(&shards_dir);
 
         Ok(())
     }
